@@ -1,6 +1,7 @@
 """C18 — FuzzyLite Dataset export is a faithful tabulation of the engine (DESIGN.md section 8, C18)."""
 from __future__ import annotations
 
+import decimal
 import io
 import json
 import math
@@ -25,8 +26,10 @@ RULE = ("engines with 1-4 input variables (Mamdani and Takagi-Sugeno) x requeste
         "distinct (engine shape, scope, v, switches)")
 RULE += (" Engines with disabled input variables / output variables / rule blocks, exported with a selection of active variables and without one (to_string_from_scope, write_from_scope, to_string): drawn last; including the engines in which NO output variable receives a value per row (every output variable disabled, every rule block disabled, both, every input variable disabled), with every header / inputs / outputs switch: one row per grid point, nan outputs.")
 RULE += (" Stream `fld-write` (fv/streams/fld_write.py): the control flow of FldExporter.write on a recording stub engine (ValueError for too few columns, order of restart / assignments / process, stacked blocks, header) against Op.Fld.write.")
+RULE += (" Drawn after them: grids whose step is a short decimal (v - 1 = 8 .. 1000 on ten ranges, both scopes, 1-2 inputs, decimals at which grid points lie half way between two numerals) on Mamdani / Takagi-Sugeno engines and `echo` engines whose output repeats the first input; readers of 1-4 input columns (blank / tab separated, comments, blank and skipped lines, output columns of a re-read dataset behind the inputs, values with a 5 behind the printed decimals) against every separator (also non-blank) x decimals 0..9 x header / inputs / outputs switch.  Every printed number (inputs and outputs, scope and reader exports, all families) is compared as TEXT with the rendering of the double with the configured decimals computed by the decimal module.")
 ASSUMPTIONS = ["printed numbers are compared with the exact grid values within half a unit of the last printed decimal",
-               "output columns are compared with the engine's own batch results on the same input rows (text equality)"]
+               "output columns are compared with the engine's own batch results on the same input rows (text equality)",
+               "the double of a grid point is minimum + index * (range / resolution) in double arithmetic (or the value the engine was fed for the row, if it is the exact grid value within 8 ulp of the range end)"]
 LEVEL_TEXT = ("Lean theorems about the grid enumeration for ANY number of inputs and ANY size: increment_lex_succ (Op.increment "
               "is the lexicographic successor with the last input fastest, false exactly at the last tuple), grid_enumerates / "
               "grid_length / rank_injective (the while loop emits every grid point exactly once in lexicographic order), "
@@ -39,9 +42,28 @@ LEVEL_NOTE = ("Trusted: Lean kernel, the Op.Fld model (tied to operation.py / ex
 TECHNIQUE = "Lean 4 proof (induction on mixed-radix counters, integer roots) about a code-shaped model of the FLD grid loop + differential run of exports"
 
 
-def mk_engine(n, kind="mamdani"):
+_DEC = decimal.Context(prec=1200)
+
+
+def render(x, d):
+    """`x` "printed with the configured decimals": the decimal numeral with `d` decimals nearest to the double x (exact ties
+    to even, as in C), computed from the exact binary value with the decimal module - not with a formatting routine of
+    Python / NumPy and not by scaling and rounding in floating point"""
+    x = float(x)
+    if x != x:
+        return "nan"
+    if math.isinf(x):
+        return "inf" if x > 0 else "-inf"
+    q = decimal.Decimal(x).quantize(decimal.Decimal(1).scaleb(-d), rounding=decimal.ROUND_HALF_EVEN, context=_DEC)
+    return format(q, "f")
+
+
+DEFAULT_RANGES = [(0.0, 1.0), (-1.0, 1.0), (2.0, 10.0), (-5.0, -1.0)]
+
+
+def mk_engine(n, kind="mamdani", ranges=None):
     e = fl.Engine(name=f"e{n}")
-    ranges = [(0.0, 1.0), (-1.0, 1.0), (2.0, 10.0), (-5.0, -1.0)]
+    ranges = [tuple(r) for r in ranges] if ranges else DEFAULT_RANGES
     for i in range(n):
         lo, hi = ranges[i]
         e.input_variables.append(fl.InputVariable(name=f"in{i}", minimum=lo, maximum=hi, lock_range=False, terms=[
@@ -51,7 +73,13 @@ def mk_engine(n, kind="mamdani"):
         for iv in e.input_variables:
             lo, hi = iv.minimum, iv.maximum
             iv.terms = [fl.Triangle("low", lo, lo, lo + 0.3 * (hi - lo)), fl.Triangle("high", lo, lo + 0.15 * (hi - lo), lo + 0.3 * (hi - lo))]
-    if kind in ("mamdani", "locked"):
+    if kind == "echo":
+        # a Takagi-Sugeno output that repeats the first input (one rule of degree 1, the term 1 * in0): whatever numbers the
+        # input column holds, the output column holds them too
+        e.output_variables.append(fl.OutputVariable(name="out", minimum=-1000.0, maximum=1000.0, aggregation=None,
+                                                    defuzzifier=fl.WeightedAverage(), lock_previous=False, terms=[
+            fl.Linear("b", [1.0] + [0.0] * n)]))
+    elif kind in ("mamdani", "locked"):
         e.output_variables.append(fl.OutputVariable(name="out", minimum=0.0, maximum=1.0, aggregation=fl.Maximum(),
                                                     defuzzifier=fl.Centroid(50), lock_previous=False, terms=[
             fl.Triangle("a", 0.0, 0.25, 0.5), fl.Triangle("b", 0.5, 0.75, 1.0)]))
@@ -64,8 +92,13 @@ def mk_engine(n, kind="mamdani"):
         fl.Rectangle("r", 0.2, 0.6)]))
     rules = []
     for i in range(n):
+        if kind == "echo":
+            rules.append(f"if in{i} is low then out2 is r")
+            continue
         rules.append(f"if in{i} is low then out is a and out2 is r")
         rules.append(f"if in{i} is high then out is b")
+    if kind == "echo":
+        rules.append("if in0 is any then out is b")
     e.rule_blocks.append(fl.RuleBlock(name="rb", conjunction=fl.Minimum(), disjunction=fl.Maximum(),
                                       implication=fl.Minimum(), activation=fl.General(),
                                       rules=[fl.Rule.create(r, e) for r in rules]))
@@ -79,7 +112,7 @@ def mk_engine(n, kind="mamdani"):
 
 def build(case):
     """the engine of a case: `mk_engine`, with the components named in `case["disabled"]` switched off (enabled = False)"""
-    e = mk_engine(case["n"], case["kind"])
+    e = mk_engine(case["n"], case["kind"], case.get("ranges"))
     off = case.get("disabled") or {}
     if len(off.get("blocks", [])) == 2:
         # a second rule block with the same rules, so that one of the two can be switched off
@@ -129,14 +162,14 @@ def export_scope(case):
             # the same exporter object has been used before, for a grid of the same shape (this engine and another one with
             # as many inputs): an export does not depend on what the exporter did earlier
             run(e, active)
-            other = mk_engine(case["n"], "ts" if case["kind"] != "ts" else "mamdani")
+            other = mk_engine(case["n"], "ts" if case["kind"] != "ts" else "mamdani", case.get("ranges"))
             run(other, None if active is None else {iv for i, iv in enumerate(other.input_variables) if case["active"][i]})
         text = run(e, active)
     return e, text
 
 
 def model_line(case):
-    e = mk_engine(case["n"], case["kind"])
+    e = mk_engine(case["n"], case["kind"], case.get("ranges"))
     vs = [[iv.minimum, iv.maximum, 1 if a else 0, "nan"] for iv, a in zip(e.input_variables, swept(case))]
     return C.sx(["fld-grid", case["scope"], str(case["v"]), vs])
 
@@ -174,20 +207,30 @@ def check_export(case, model_rows):
     half = Fr(1, 2 * 10 ** d) + Fr(1, 10 ** 9)
     # expected outputs: the engine's own results on the exact grid (as floats)
     exp_out = None
+    e2 = build(case)
+    # the float input values at the model's grid points: minimum + index * (range / resolution) in double arithmetic
+    res = (max(1, iroot_py(n, case["v"])) - 1) if case["scope"] == "all" else case["v"] - 1
+    points = [{} for _ in range(n)]       # per input: the model's value (text) -> (exact value, double); few distinct values per column
+
+    def point(ci_, ms):
+        known = points[ci_]
+        if ms not in known:
+            iv = e2.input_variables[ci_]
+            if ms == "nan":
+                known[ms] = (Fr(0.123), 0.123)
+            else:
+                lo_, hi_ = Fr(iv.minimum), Fr(iv.maximum)
+                idx_ = (Fr(ms) - lo_) * max(1, res) / (hi_ - lo_)
+                assert idx_.denominator == 1
+                known[ms] = (Fr(ms), grid_double(iv, int(idx_), res))
+        return known[ms]
+    grid = np.zeros((len(model_rows), n))
+    for ri_, r_ in enumerate(model_rows):
+        for ci_ in range(n):
+            grid[ri_, ci_] = point(ci_, r_[ci_])[1]
+    fed = fed_values(e, len(model_rows))
+    seen = [{} for _ in range(n)]         # per input: (model value, printed text, value fed) -> verdict of the comparisons
     if case["outputs"]:
-        e2 = build(case)
-        # the implementation's own float input values at the model's grid points (same formula, same rounding)
-        res = (max(1, iroot_py(n, case["v"])) - 1) if case["scope"] == "all" else case["v"] - 1
-        grid = np.zeros((len(model_rows), n))
-        for ri_, r_ in enumerate(model_rows):
-            for ci_, iv in enumerate(e2.input_variables):
-                if r_[ci_] == "nan":
-                    grid[ri_, ci_] = 0.123
-                else:
-                    lo_, hi_ = Fr(iv.minimum), Fr(iv.maximum)
-                    idx_ = (Fr(r_[ci_]) - lo_) * max(1, res) / (hi_ - lo_)
-                    assert idx_.denominator == 1
-                    grid[ri_, ci_] = iv.minimum + int(idx_) * (iv.drange / max(1.0, res))
         e2.restart()
         if case["kind"] == "locked":
             # the engine itself, restarted once and fed the grid points one at a time (the previous value carries over)
@@ -211,9 +254,16 @@ def check_export(case, model_rows):
             return f"row {ri} has {len(r)} columns, expected {ncols}"
         if case["inputs"]:
             for ci in range(n):
-                mv = Fr(0.123) if m[ci] == "nan" else Fr(m[ci])
-                if abs(Fr(r[ci]) - mv) > half:
-                    return f"row {ri} input {ci}: printed {r[ci]}, grid value {float(mv)}"
+                fv = float(fed[ci][ri]) if fed else None
+                k_ = (m[ci], r[ci], fv)
+                if k_ not in seen[ci]:
+                    mv, gv = point(ci, m[ci])
+                    if abs(Fr(r[ci]) - mv) > half:
+                        seen[ci][k_] = f"printed {r[ci]}, grid value {float(mv)}"
+                    else:
+                        seen[ci][k_] = not_printed(r[ci], d, gv, mv, e.input_variables[ci], fv)
+                if seen[ci][k_]:
+                    return f"row {ri} input {ci}: {seen[ci][k_]}"
         if case["outputs"]:
             off = n if case["inputs"] else 0
             for oi in range(len(names_out)):
@@ -224,7 +274,45 @@ def check_export(case, model_rows):
                         return f"row {ri} output {oi}: printed {got}, engine gives nan"
                 elif not (abs(float(got) - want) <= 0.5 * 10 ** (-d) + 1e-7):       # also when a number became nan
                     return f"row {ri} output {oi}: printed {got}, engine gives {want!r}"
+                elif case["kind"] != "locked" and got != render(want, d):
+                    # "printed with the configured decimals": the numeral is the d-decimal rendering of the double the
+                    # engine produces (the same batch computation on the same rows gives the same double; the `locked`
+                    # reference is computed row by row and may differ from the batch in the last bits: tolerance only)
+                    return (f"row {ri} output {oi}: printed {got}, the engine gives {want!r} whose rendering with {d} decimals "
+                            f"is {render(want, d)}")
     return None
+
+
+def grid_double(iv, index, res):
+    """the grid value number `index` of an input variable as a double: minimum + index * (range / resolution)"""
+    return iv.minimum + index * ((iv.maximum - iv.minimum) / max(1.0, res))
+
+
+def fed_values(e, nrows):
+    """the values the engine holds for its input variables after the export, one per row (None if it holds something else)"""
+    out = []
+    for iv in e.input_variables:
+        a = np.asarray(iv.value, dtype=float)
+        if a.shape != (nrows,):
+            return None
+        out.append(a)
+    return out
+
+
+def not_printed(text, d, value, exact, iv, fed=None):
+    """"every row holds the input values of that point ... printed with the configured decimals": the numeral `text` is the
+    rendering with d decimals of the double that is the input value of the point.  That double is `value` (the equidistant
+    value computed in double arithmetic); a value that the engine was fed for the row is accepted as well when it is the
+    exact grid value `exact` up to the rounding of such a computation (8 units of the last place of the larger range end).
+    Comparing with the exact rational alone cannot decide a numeral whose next decimal is a 5: 1/80 is the double
+    0.01250000000000000069..., printed 0.013 with three decimals, while 0.012 is just as near to 1/80."""
+    if text == render(value, d):
+        return None
+    if fed is not None and fed == fed:
+        slack = 8 * 2.0 ** -52 * max(abs(iv.minimum), abs(iv.maximum), 1e-300)
+        if abs(Fr(float(fed)) - exact) <= Fr(slack) and text == render(fed, d):
+            return None
+    return f"printed {text}, the grid value is the double {float(value)!r} whose rendering with {d} decimals is {render(value, d)}"
 
 
 def iroot_py(n, v):
@@ -278,18 +366,31 @@ def oracle_(case):
     half = Fr(1, 2 * 10 ** d) + Fr(1, 10 ** 9)
     idx = [0] * n
     grid_rows = []
+    fed = fed_values(e, len(rows))
+    points = [{} for _ in range(n)]       # per input: index -> (exact grid value, its text); few distinct values per column
+    seen = [{} for _ in range(n)]         # per input: (index, printed text, value fed) -> verdict of the comparisons
     for ri, r in enumerate(rows):
         grow = []
         for ci, iv in enumerate(e.input_variables):
-            if act[ci]:
-                lo, hi = Fr(iv.minimum), Fr(iv.maximum)
-                want = lo + idx[ci] * ((hi - lo) / max(1, k - 1))
-                grow.append(str(want))
-            else:
-                want = Fr(0.123)
-                grow.append("nan")
-            if case["inputs"] and abs(Fr(r[ci]) - want) > half:
-                return False, f"row {ri}: input {ci} printed {r[ci]}, lexicographic grid point has {float(want)}"
+            if idx[ci] not in points[ci]:
+                if act[ci]:
+                    lo, hi = Fr(iv.minimum), Fr(iv.maximum)
+                    want = lo + idx[ci] * ((hi - lo) / max(1, k - 1))
+                    points[ci][idx[ci]] = (want, str(want))
+                else:
+                    points[ci][idx[ci]] = (Fr(0.123), "nan")
+            want, wtext = points[ci][idx[ci]]
+            grow.append(wtext)
+            if case["inputs"]:
+                fv = float(fed[ci][ri]) if fed else None
+                k_ = (idx[ci], r[ci], fv)
+                if k_ not in seen[ci]:
+                    if abs(Fr(r[ci]) - want) > half:
+                        seen[ci][k_] = f"printed {r[ci]}, lexicographic grid point has {float(want)}"
+                    else:
+                        seen[ci][k_] = not_printed(r[ci], d, grid_double(iv, idx[ci], k - 1) if act[ci] else 0.123, want, iv, fv)
+                if seen[ci][k_]:
+                    return False, f"row {ri}: input {ci} {seen[ci][k_]}"
         grid_rows.append(grow)
         # lexicographic successor, last input fastest
         for ci in reversed(range(n)):
@@ -305,15 +406,9 @@ def oracle_(case):
     return True, "ok"
 
 
-def oracle_reader(case):
-    e = mk_engine(case["n"], "mamdani")
-    exp = fl.FldExporter(headers=False, input_values=True, output_values=False)
-    try:
-        with fl.settings.context(decimals=6):
-            text = exp.to_string_from_reader(e, io.StringIO(case["reader"]), skip_lines=case["skip"])
-        rows = [l for l in text.split("\n") if l != ""]
-    except ValueError:
-        rows = []   # a reader without data lines is rejected by the exporter (nothing to tabulate)
+def reader_rows(case):
+    """the data lines of a reader, read independently: lines after the skipped ones that are neither blank nor comments,
+    their values separated by any white space"""
     want = []
     for i, line in enumerate(case["reader"].split("\n")):
         if i < case["skip"]:
@@ -322,12 +417,63 @@ def oracle_reader(case):
         if not t or t.startswith("#"):
             continue
         want.append([float(x) for x in t.split()])
+    return want
+
+
+def oracle_reader(case):
+    """"Exporting from a reader tabulates exactly the given rows, skipping blank and comment lines": one row per data line,
+    holding its input values (the first value per input variable; a dataset that is read back has output columns behind
+    them) and the outputs the engine produces for them, in the exporter's OWN layout - header, inputs / outputs switches,
+    separator, decimals.  How the reader's lines are written (blanks, tabs, indentation) is independent of that layout.
+    The older cases (no layout given) use the default exporter without header and outputs at 6 decimals."""
+    n, d = case["n"], case.get("decimals", 6)
+    sep, headers = case.get("sep", " "), case.get("headers", False)
+    ins, outs = case.get("inputs", True), case.get("outputs", False)
+    e = mk_engine(n, case.get("kind", "mamdani"), case.get("ranges"))
+    exp = fl.FldExporter(separator=sep, headers=headers, input_values=ins, output_values=outs)
+    want = reader_rows(case)
+    try:
+        with fl.settings.context(decimals=d):
+            text = exp.to_string_from_reader(e, io.StringIO(case["reader"]), skip_lines=case["skip"])
+    except ValueError as ex:
+        if not want:
+            return True, "ok"   # a reader without data lines is rejected by the exporter (nothing to tabulate)
+        return False, (f"the export from the reader raises ValueError: {str(ex)[:160]}; {len(want)} data lines of "
+                       f"{len(want[0])} values are given for {n} input variables (exporter separator {sep!r})")
+    lines = text.split("\n")
+    if lines and lines[-1] == "":
+        lines.pop()
+    if headers:
+        names = ([iv.name for iv in e.input_variables] if ins else []) + ([ov.name for ov in e.output_variables] if outs else [])
+        if not lines or lines[0] != sep.join(names):
+            return False, f"header line {lines[:1]}, expected the selected variable names joined by {sep!r}: {sep.join(names)!r}"
+        lines = lines[1:]
+    rows = [l for l in lines if l != ""]
     if len(rows) != len(want):
         return False, f"{len(rows)} rows exported from the reader, {len(want)} data lines given"
+    if not want:
+        return True, "ok"
     for r, w in zip(rows, want):
+        if "sep" in case:
+            break
         got = [float(x) for x in r.split()]
         if len(got) != len(w) or any(abs(a - b) > 1e-6 for a, b in zip(got, w)):
             return False, f"row {got} differs from the given line {w}"
+    # every printed number: the rendering with d decimals of the given input value / of the output the engine produces
+    exp_out = None
+    if outs:
+        e2 = mk_engine(n, case.get("kind", "mamdani"), case.get("ranges"))
+        e2.restart()
+        for i, iv in enumerate(e2.input_variables):
+            iv.value = np.array([w[i] for w in want], dtype=float)
+        e2.process()
+        exp_out = [np.broadcast_to(np.atleast_1d(np.asarray(ov.value, dtype=float)), (len(want),)) for ov in e2.output_variables]
+    for ri, (r, w) in enumerate(zip(rows, want)):
+        cells = ([render(x, d) for x in w[:n]] if ins else []) + ([render(col[ri], d) for col in exp_out] if outs else [])
+        if r != sep.join(cells):
+            return False, (f"row {ri} is {r!r}; the data line holds the input values {w[:n]}"
+                           + (f", the engine produces {[float(col[ri]) for col in exp_out]}" if outs else "")
+                           + f": expected {sep.join(cells)!r} (separator {sep!r}, {d} decimals)")
     return True, "ok"
 
 
@@ -442,6 +588,98 @@ def gen_readers(ctx):
         yield {"reader": "\n".join(lines), "skip": rng.randint(0, 3), "n": n}
 
 
+# "printed with the configured decimals": a numeral with d decimals is decided by the digits behind them, and the hard
+# numbers are those whose next digit is a 5 followed by zeros in decimal while the double is a little more or less
+# (1/80 = 0.0125 at 3 decimals, 0.45 at 1, 2.675 at 2) - next to the exact binary ties (0.125, 0.375), which go to the even
+# digit.  Equidistant grids are full of them whenever range / (v - 1) is a short decimal: v - 1 = 20, 40, 80, 100, 200 ... on
+# [0, 1], [0, 0.25], [-1, 1], [2, 10] ...  The random sizes above almost never give such a step, and their outputs never
+# repeat such values; the `echo` engines below print the first input once more as an output.
+TIE_RANGES = [(0.0, 1.0), (0.0, 0.25), (-1.0, 1.0), (0.0, 10.0), (-0.5, 0.5), (2.0, 10.0), (0.0, 0.1), (1.0, 2.0), (0.0, 100.0),
+              (-5.0, -1.0)]
+TIE_STEPS = [8, 16, 20, 40, 50, 80, 100, 160, 200, 250, 400, 500, 1000]
+
+
+def tie_decimals(lo, hi, steps):
+    """the numbers of decimals at which some of the first grid points lo + j (hi - lo) / steps lie half way between two numerals"""
+    out = []
+    for d in range(0, 7):
+        for j in range(min(steps, 40) + 1):
+            t = (Fr(lo) + j * (Fr(hi) - Fr(lo)) / steps) * 10 ** d * 2
+            if t.denominator == 1 and t.numerator % 2 == 1:
+                out.append(d)
+                break
+    return out
+
+
+def gen_tie_grids(ctx):
+    rng = ctx.rng
+    base = {"scope": "each", "active": None, "sep": " ", "headers": True, "inputs": True, "outputs": True, "reuse": False}
+    for v in (21, 41, 81, 101, 201):
+        for d in (1, 2, 3, 4):
+            yield dict(base, n=1, kind="echo", v=v, decimals=d, ranges=[[0.0, 1.0]])
+    for _ in range(ctx.scale(40, 400)):
+        n = rng.choice([1, 1, 2])
+        ranges = [list(rng.choice(TIE_RANGES)) for _ in range(n)]
+        steps = rng.choice(TIE_STEPS if n == 1 else TIE_STEPS[:4])
+        scope = rng.choice(["each", "each", "all"])
+        v = steps + 1 if scope == "each" else (steps + 1) ** n + rng.choice([0, 0, 1, 2])
+        ds = sorted({d for lo, hi in ranges for d in tie_decimals(lo, hi, steps)})
+        d = rng.choice(ds) if ds and rng.random() < 0.8 else rng.choice([0, 1, 2, 3, 4, 6])
+        ins, outs = rng.choice([(True, True), (True, False), (False, True)])
+        yield {"n": n, "kind": rng.choice(["echo", "echo", "mamdani", "ts"]), "scope": scope, "v": v,
+               "active": None if rng.random() < 0.7 else [rng.random() < 0.8 for _ in range(n)],
+               "sep": rng.choice([" ", ",", "\t", ";"]), "headers": rng.random() < 0.5, "inputs": ins, "outputs": outs,
+               "decimals": d, "reuse": False, "ranges": ranges}
+
+
+# "all reader contents ... x header/inputs/outputs switches x separators x decimals": the layout of the exported dataset is
+# the exporter's, the reader's lines are the caller's.  Every switch, separator (also the non-blank ones) and number of
+# decimals against readers of 1..4 input columns - the values of a line separated by blanks and tabs, with comments, blank
+# lines, indentation, skipped header lines, with the output columns of a dataset that is read back behind the inputs - and
+# with input values of the kind described above (short decimals whose next digit is a 5).
+def gen_reader_exports(ctx):
+    rng = ctx.rng
+    for _ in range(ctx.scale(150, 1500)):
+        n = rng.randint(1, 4)
+        cols = n + rng.choice([0, 0, 0, 1, 2])
+        d = rng.choice([0, 1, 2, 3, 4, 6, 9])
+        ranges = [list(rng.choice(TIE_RANGES)) for _ in range(n)] if rng.random() < 0.5 else None
+
+        def value(c):
+            lo, hi = (ranges[c] if ranges else DEFAULT_RANGES[c]) if c < n else (0.0, 1.0)
+            u = rng.random()
+            if c >= n and u < 0.2:
+                return "nan"
+            if u < 0.5:                             # a grid point with a short decimal expansion
+                steps = rng.choice(TIE_STEPS)
+                return repr(float(Fr(lo) + rng.randint(0, steps) * (Fr(hi) - Fr(lo)) / steps))
+            if u < 0.7:                             # 5 behind the printed decimals, as written by hand
+                return f"{rng.uniform(lo, hi):.{min(d, 5)}f}5"
+            if u < 0.85:
+                return f"{rng.uniform(lo, hi):.4f}"
+            return repr(rng.uniform(lo, hi))
+        skip = rng.randint(0, 2)
+        lines = []
+        for li in range(rng.randint(1, 10)):
+            r = rng.random()
+            if li < skip and r < 0.6:
+                lines.append(rng.choice(["in0 in1 out", "# header", "x,y;z", ""]))
+            elif r < 0.12:
+                lines.append(rng.choice(["", "   ", "\t"]))
+            elif r < 0.25:
+                lines.append(rng.choice(["# comment", "   # indented comment", "#1 2 3", "#0.5,0.5"]))
+            else:
+                gap = rng.choice([" ", " ", "\t", "  ", " \t "])
+                lines.append(rng.choice(["", "", "  ", "\t"]) + gap.join(value(c) for c in range(cols)) + rng.choice(["", " ", "\r"]))
+        ins, outs = rng.choice([(True, True), (True, True), (True, False), (False, True)])
+        case = {"reader": "\n".join(lines), "skip": skip, "n": n, "kind": rng.choice(["mamdani", "ts", "echo"]),
+                "sep": rng.choice([" ", "\t", ",", ";", ", ", " | ", "  "]), "decimals": d, "headers": rng.random() < 0.5,
+                "inputs": ins, "outputs": outs}
+        if ranges:
+            case["ranges"] = ranges
+        yield case
+
+
 def correspond(ctx):
     st = ctx.stats
     mism = []
@@ -510,6 +748,28 @@ def correspond(ctx):
     # engines with disabled input variables / output variables / rule blocks, with and without a selection of active
     # variables (drawn last: the streams above are the same as before for a seed)
     exports(list(gen_disabled_cases(ctx)), label="-disabled")
+    # grids and outputs whose values lie half way between two printed numerals, then readers against every layout of the
+    # exported dataset (drawn after everything else)
+    exports(list(gen_tie_grids(ctx)), label="-ties")
+    readers = list(gen_reader_exports(ctx))
+    outs = ctx.driver.eval([C.sx(["fld-reader", str(c["skip"]), [C.hexs(l) for l in c["reader"].split("\n")]]) for c in readers])
+    for case, line in zip(readers, outs):
+        if len(mism) > 12:
+            break
+        st.count("reader-layout")
+        kept = C.parse_sx(line)
+        kept = [] if kept == "()" else kept
+        kept = [bytes.fromhex(k[1:]).decode() for k in kept]
+        want = reader_rows(case)
+        st.case(("reader-layout", case["reader"], case["skip"], case["sep"], case["decimals"], case["headers"], case["inputs"],
+                 case["outputs"]), len(want) > 0 and (len(want[0]) >= 2 or case["outputs"]))
+        st.validated += 1
+        if [[repr(float(x)) for x in k.split()] for k in kept] != [[repr(x) for x in w] for w in want]:
+            mism.append({"case": case, "impl": want, "model": kept, "what": f"the model keeps the lines {kept}, the harness reads the data lines {want}"})
+            continue
+        ok, detail = oracle(case)
+        if not ok:
+            mism.append({"case": case, "violation": True, "detail": detail, "what": detail})
     return mism
 
 
@@ -523,6 +783,10 @@ def search(ctx):
         if not ok:
             return [(case, d)]
     for case in gen_disabled_cases(ctx):
+        ok, d = oracle(case)
+        if not ok:
+            return [(case, d)]
+    for case in list(gen_tie_grids(ctx)) + list(gen_reader_exports(ctx)):
         ok, d = oracle(case)
         if not ok:
             return [(case, d)]
